@@ -34,6 +34,21 @@ EXPLANATION = (
 MOD = "milp"
 
 
+def _bounded_only_by_single_entry_rows(ctx: Ctx):
+    """who may call a column bounded: only the branch for a row with exactly one non-zero entry"""
+    db = ctx.func(MOD, "_detect_binary")
+    adds = [n for n in own_nodes(db.node) if isinstance(n, ast.Call) and isinstance(n.func, ast.Attribute) and n.func.attr in ("add", "update") and ast.unparse(n.func.value) == "bounded"]
+    other = [n for n in own_nodes(db.node) if isinstance(n, (ast.Assign, ast.AugAssign)) and "bounded" in ast.unparse(n.targets[0] if isinstance(n, ast.Assign) else n.target) and not (isinstance(n, ast.Assign) and ast.unparse(n.value) == "set()")]
+    cfg = cfg_of(db.node)
+    gv = GuardView(cfg)
+    ok = len(adds) == 1 and not other
+    if ok:
+        at = gv.guard_atoms(cfg.stmt_node_containing(adds[0]), stable_only=False)
+        ok = atom_of("len(nz) == 1") in at
+    bad = [a for a in adds[1:]] or other
+    ctx.ob("C04-O6", "R27 WRITE-OWNERSHIP", db, "a column is entered into `bounded` only by the branch for a row with a single non-zero entry", ok, f"`{ast.unparse(bad[0])[:60]}`: a row with several entries bounds none of them by itself (x - y <= 1 says nothing about x); clamping such a variable to [0, 1] cuts off integer points and the verdict (OPTIMAL / INFEASIBLE) is about a smaller problem" if bad else "", node=bad[0] if bad else db.node)
+
+
 def check_certifier_and_slack(ctx: Ctx):
     # O9 the certifier looks at every component / every integer index / every row
     cf = ctx.func("milp", CERT)
@@ -109,6 +124,7 @@ def run(ctx: Ctx):
     ctx.step(_need, "C04-O11", "R16 PAIRED-EFFECTS", sm, "the search starts from the root relaxation: its value (in minimisation form) is the root's bound and the root is the first open node", ["sign = 1 if minimize else -1", "root_bound = sign * root_result.objective\n    heappush(tree, (root_bound, counter, Node(root_bound, tuple(lower), tuple(upper), 0)))\n    counter += 1", "node_bound, _, node = heappop(tree)"], "without the root in the tree the loop never runs and whatever the heuristics found is labelled OPTIMAL")
     ctx.step(_need, "C04-O9", "R18 table", ctx.func("milp", "_is_feasible"), "the certifier answers False for a negative component, a fractional integer variable or a violated row, and True only after all three tests", ["if any((x[j] < -eps for j in range(n))):\n        return False", "for j in int_set:\n        if abs(x[j] - round(x[j])) > eps:\n            return False", "for i, row in enumerate(A):\n        lhs = sum((row[j] * x[j] for j in range(n)))\n        if lhs > b[i] + eps:\n            return False", "return True"], "the certifier is the only thing between a heuristic point (warm start, rounding, LNS) and the incumbent")
     ctx.step(_need, "C04-O11", "R1 STATUS-GUARD", sn, "node LP: a relaxation that is not OPTIMAL is handed back as it is; an all-fixed node is OPTIMAL exactly when every row holds", ["if result.status != LPStatus.OPTIMAL:\n        return result", "if lhs > b[i] + eps:\n                return Result(None, float('inf') if minimize else float('-inf'), 0, 0, LPStatus.INFEASIBLE)", "return Result(tuple(sol), obj, 0, 0, LPStatus.OPTIMAL)", "if hi < lo - eps:\n            return Result(None, float('inf') if minimize else float('-inf'), 0, 0, LPStatus.INFEASIBLE)"])
+    ctx.step(_bounded_only_by_single_entry_rows)
     ctx.step(_need, "C04-O6", "R1 STATUS-GUARD", ctx.func("milp", "_detect_binary"), "a variable counts as bounded by 1 only through a row with right-hand side 1 whose single non-zero entry - over all columns, continuous ones included - is a 1 in that integer column; all integer variables must be bounded that way", ["if abs(b[i] - 1.0) > eps:\n            continue", "nz = [(j, row[j]) for j in range(n) if abs(row[j]) > eps]", "if len(nz) == 1:\n            j, coef = nz[0]\n            if j in int_set and abs(coef - 1.0) < eps:\n                bounded.add(j)", "return len(bounded) == len(int_set) and len(int_set) > 0"], "a row such as x - 2y <= 1 with y continuous is no bound on x: taking it for one clamps x to [0, 1] in every node LP and a cut-off optimum is reported OPTIMAL")
     ctx.step(_need, "C04-O11", "R6 INCUMBENT", sm, "heuristic incumbents: a warm start is taken only if it has the right length and is feasible, the LNS result only if it is strictly better than the incumbent, each with the objective recomputed from c", ["if len(ws) == n and _is_feasible(ws, A, b, int_set, eps):\n            best_obj = sum((c[j] * ws[j] for j in range(n)))\n            best_solution = ws", "improved_obj = sum((c[j] * improved[j] for j in range(n)))\n            if minimize and improved_obj < best_obj or (not minimize and improved_obj > best_obj):\n                best_solution, best_obj = (improved, improved_obj)", "best_obj = sum((c[j] * rounded[j] for j in range(n)))\n            best_solution = rounded"])
 
@@ -323,6 +339,37 @@ def check_certified(ctx: Ctx, f):
             else:
                 ok = atom_of("result.status == LPStatus.OPTIMAL") in at and "F:frac_vars" in at
                 ctx.ob("C04-O3", "R14 GATE", sm, f"sub-MIP return `{v}` is an LP-optimal point without fractional free variable", ok, f"{sorted(at)}", node=n)
+    # the LNS pass: solve_milp adopts what _lns_improve returns on its objective alone, and lns() keeps what `repair`
+    # returns - so `repair` may hand back nothing but the sub-MIP's own answer (certified above) or the solution it was
+    # given (the incumbent, certified before).  Anything assembled in between was certified by nobody.
+    li = ctx.func(MOD, "_lns_improve")
+    rep = [x for x in li.node.body if isinstance(x, ast.FunctionDef) and x.name == "repair"]
+    ctx.floor("repair closure of _lns_improve", len(rep), 1)
+    for r_ in rep:
+        given = set()
+        sub = set()
+        for x in ast.walk(r_):
+            if isinstance(x, ast.Assign) and isinstance(x.targets[0], ast.Tuple) and isinstance(x.value, ast.Name) and x.value.id == r_.args.args[0].arg and x.targets[0].elts and isinstance(x.targets[0].elts[0], ast.Name):
+                given.add(x.targets[0].elts[0].id)
+            if isinstance(x, ast.Assign) and len(x.targets) == 1 and isinstance(x.targets[0], ast.Name) and isinstance(x.value, ast.Call) and ast.unparse(x.value.func) == "_solve_sub_mip":
+                sub.add(x.targets[0].id)
+        rebound = {n_.id for n_ in ast.walk(r_) if isinstance(n_, ast.Name) and isinstance(n_.ctx, ast.Store)}
+        stores = [x for x in ast.walk(r_) if isinstance(x, ast.Assign)]
+        multi = {nm for nm in given | sub if sum(1 for x in stores for t in ast.walk(x.targets[0]) if isinstance(t, ast.Name) and t.id == nm) != 1}
+        for n in ast.walk(r_):
+            if isinstance(n, ast.Return):
+                alts = [n.value]
+                flat = []
+                while alts:
+                    e = alts.pop()
+                    if isinstance(e, ast.IfExp):
+                        alts += [e.body, e.orelse]
+                    elif isinstance(e, ast.BoolOp):
+                        alts += e.values
+                    else:
+                        flat.append(e)
+                ok = bool(flat) and all(isinstance(e, ast.Name) and e.id in (given | sub) - multi for e in flat)
+                ctx.ob("C04-O3", "R14 GATE", li, "the LNS repair returns the sub-MIP's answer or the solution it was given, nothing assembled from them", ok, f"`return {ast.unparse(n.value)[:70]}`: a vector spliced together from a remembered sub-MIP answer and the current solution was certified by nobody, and solve_milp adopts the LNS result on its objective alone", node=n)
 
 
 # -- O4 ------------------------------------------------------------------------------------------
@@ -677,7 +724,24 @@ def _v_duplicate_rows_dropped_by_lhs(tree):
     g.body[k[0]:k[0]] = M.stmts("unique_rows = {}\nfor row, rhs in zip(A, b):\n    unique_rows.setdefault(tuple(row), rhs)\nif len(unique_rows) < len(b):\n    A = [list(row) for row in unique_rows]\n    b = list(unique_rows.values())")
 
 
+def _v_lns_repair_memo(tree):
+    g = M.find_func(tree, "_lns_improve.repair")
+    M.insert(g, "candidate = _solve_sub_mip", "if frozenset(unfixed) in repaired:\n    return tuple(repaired[frozenset(unfixed)].get(j, sol[j]) for j in range(n))")
+    outer = M.find_func(tree, "_lns_improve")
+    M.insert(outer, "def repair", "repaired = {}")
+
+
+def _v_detect_binary_packing_rows(tree):
+    g = M.find_func(tree, "_detect_binary")
+    node = [x for x in ast.walk(g) if isinstance(x, ast.If) and M.src_is(x.test, "len(nz) == 1")]
+    if not node:
+        raise M.Skip("single-entry branch not found")
+    node[0].orelse = M.stmts("if all(j in int_set for j, _ in nz):\n    for j, coef in nz:\n        if coef >= 1.0 - eps:\n            bounded.add(j)")
+
+
 VARIANTS = [
+    M.Variant("LNS repair splices a remembered sub-MIP answer into the current solution (seed C04-S)", ML, _v_lns_repair_memo, "C04-O3"),
+    M.Variant("_detect_binary reads set-packing rows as bounds on each member (seed C04-T)", ML, _v_detect_binary_packing_rows, "C04-O6"),
     M.Variant("rows with equal left-hand sides collapsed to the first one, whatever their right-hand sides (seed C04-O)", ML, _v_duplicate_rows_dropped_by_lhs, "C04-G15"),
 
     M.Variant("a root LP that ran out of iterations is used like an optimal one (original defect)", ML, _v_root_budget_unchecked, "C04-O4"),
